@@ -64,9 +64,11 @@ package data
 //@   modifies fresh mapof(map[string]IItem)
 //@   ensures [fresh-map] result != nil && fresh(result)
 //@   ensures [only-stored-entries] forall k string :: has(result, k) ==> has(f.variables, k) && result[k] == f.variables[k]
+//@   ensures [every-stored-entry] forall k string :: has(f.variables, k) ==> has(result, k) && result[k] == f.variables[k]
 //@   loop 1 range f.variables
 //@     invariant out != nil && fresh(out)
 //@     invariant forall k string :: has(out, k) ==> has(f.variables, k) && out[k] == f.variables[k]
+//@     invariant forall k string :: visited(1, k) ==> has(out, k) && out[k] == f.variables[k]
 //@     invariant preserved("mapof(map[string]IItem)")
 
 //@ func (*FlowDataLocator).FindIItemAwareLocator
